@@ -606,6 +606,59 @@ def spec_cube(L, suffix):
     return [{ord('s'), ord('d')}] + [set(digits) for _ in range(10)] + [{ord('.')}, {ord('c')}]
 
 
+def glob_cube(pat, L):
+    """per-position byte sets of the names of length L a glob(3) pattern matches (literals, ?, [sets] with ranges and !/^ negation, at
+    most one *), or None when no name of that length matches"""
+    if not isinstance(pat, str):
+        raise AnalysisBroken('glob pattern %r is not a string literal' % (pat,))
+    anyb = set(range(1, 256)) - {ord('/')}
+    elems = []
+    i = 0
+    while i < len(pat):
+        ch = pat[i]
+        if ch == '*':
+            elems.append('*')
+            i += 1
+        elif ch == '?':
+            elems.append(set(anyb))
+            i += 1
+        elif ch == '[':
+            j = pat.find(']', i + 2)
+            if j < 0:
+                raise AnalysisBroken('unrecognised glob pattern %r' % (pat,))
+            body = pat[i + 1:j]
+            neg = body[:1] in ('!', '^')
+            if neg:
+                body = body[1:]
+            st = set()
+            k = 0
+            while k < len(body):
+                if k + 2 < len(body) and body[k + 1] == '-':
+                    st |= set(range(ord(body[k]), ord(body[k + 2]) + 1))
+                    k += 3
+                else:
+                    st.add(ord(body[k]))
+                    k += 1
+            elems.append((anyb - st) if neg else st)
+            i = j + 1
+        elif ch == '\\' and i + 1 < len(pat):
+            elems.append({ord(pat[i + 1])})
+            i += 2
+        else:
+            elems.append({ord(ch)})
+            i += 1
+    stars = [k for k, e in enumerate(elems) if e == '*']
+    if len(stars) > 1:
+        raise AnalysisBroken('glob pattern %r has several *' % (pat,))
+    if not stars:
+        return [set(e) for e in elems] if len(elems) == L else None
+    pre, suf = elems[:stars[0]], elems[stars[0] + 1:]
+    mid = L - len(pre) - len(suf)
+    if mid < 0:
+        return None
+    return [set(e) for e in pre] + [set(anyb) for _ in range(mid)] + [set(e) for e in suf]
+
+
 def check_filter(chk, main_tu, c_tu, it_c):
     total = 0
     pats = set()
@@ -615,15 +668,16 @@ def check_filter(chk, main_tu, c_tu, it_c):
         total += len(cubes)
         spec = spec_cube(L, '.c')
         # the directory scan only yields names matching the glob pattern: intersect with its literal suffix
+        if len(ps) > 1:
+            raise AnalysisBroken('several glob patterns: %r' % (sorted(ps),))
         for pat in ps:
-            if not (isinstance(pat, str) and pat.startswith('*') and '*' not in pat[1:] and '?' not in pat and '[' not in pat):
-                raise AnalysisBroken('unrecognised glob pattern %r' % (pat,))
-        suffix = list(ps)[0][1:] if ps else ''
-        for cube in cubes:
-            for j, ch in enumerate(suffix):
-                pos = L - len(suffix) + j
-                if pos >= 0:
-                    cube[pos] &= {ord(ch)}
+            g = glob_cube(pat, L)
+            if g is None:
+                cubes = []          # no name of this length matches the pattern: the scan never yields one
+            else:
+                for cube in cubes:
+                    for pos in range(L):
+                        cube[pos] &= g[pos]
         cubes = [c for c in cubes if all(c)]
         if spec is None:
             chk.expect(not cubes, 'R20.4', 'filter:length-%d' % L,
